@@ -703,6 +703,9 @@ func (b *builder) processNode(root node, flags flag, props *builderProp) (q quer
 		if b.firstInput == nil {
 			b.firstInput = q
 		}
+	case nodeVariable:
+		err = fmt.Errorf("undeclared variable in XPath expression: $%s", root)
+		return
 	}
 	b.parseDepth--
 	return
